@@ -5,8 +5,9 @@ from . import unit as U
 def main():
     name = sys.argv[1]
     canary = "--canary" in sys.argv
+    pid = sys.argv[sys.argv.index("--prop") + 1] if "--prop" in sys.argv else None
     try:
-        b = U.build(name, "/tmp/vx/scratch", canary=canary)
+        b = U.build(name, "/tmp/vx/scratch", canary=canary, pid=pid)
     except U.Inconclusive as e:
         print("INCONCLUSIVE:", e); sys.exit(2)
     for r in b.regions:
